@@ -31,6 +31,7 @@ fn run_line(prop: &str, args: &[&str]) -> String {
         "C12" => sess::run12(args),
         "C15" => bcodec::run15(args),
         "C16" => bcodec::run16(args),
+        "C13" if args[0] == "hist" => sess::run12(args),
         "C13" => sess::run13(args),
         "C14" if args[0] == "hand" || args[0] == "stats" => hand::run(args),
         "C14" => sess::run14(args),
